@@ -10,6 +10,16 @@ COMMON_NOTE = ("Trusted base: pyvc engine (AST transform T1-T3 of the real sourc
                "lift to C), A3 (integer powers), A4 (path forking via z3), A5 (numpy shim contracts, listed per run in evidence.trusted_base). ")
 
 CLAIMED = {
+    "C10": dict(
+        category="proof",
+        text=("(i) K(a0,a0) = 1 for every NS and singlet method x order x nf through the dispatchers (exact order 4 with opaque roots), and for the QED "
+              "NS / singlet / valence kernels with coinciding couplings and scales for ANY number of steps (loop invariants); (ii) K(a2,a1)K(a1,a0) = "
+              "K(a2,a0) for the NS exact, expanded and ordered-truncated families (exponent additivity with ln-splitting justified by z3-proved "
+              "positivity; order-4 exact through dD/da2 = 0 and D(a2=a1) = 0) and for the LO singlet kernel (sign atoms for the three square roots)."),
+        note=COMMON_NOTE + "Lemmas: MatExp(0)=1; loop-invariant induction; FTC for the order-4 composition (no branch cut crossed). Not claimed: composition of the iterated singlet kernel up to discretisation error.",
+        technique="contract-based deductive verification: symbolic execution + exact normal form with log/exp/sqrt atom laws + loop invariants",
+        design_ref="DESIGN.md section 2, C10",
+    ),
     "C11": dict(
         category="proof",
         text=("With v.gamma_k = 0 imposed by parametrisation for a symbolic row vector v, v.K = v is proved for every singlet kernel through the "
